@@ -391,11 +391,29 @@ def run_single(cfg):
     case = Case(cfg)
     n, db = cfg["n"], tuple(cfg["db"])
     lik, P, gen = build_single(cfg)
-    Cm = _spd(torch, db, n, gen)
+    if P["call"] is not None and cfg.get("zero_noise"):
+        # legal but unusual: call-time noise entries that are exactly 0.0
+        P["call"] = P["call"] * (torch.rand(P["call"].shape, generator=gen, dtype=torch.float64) > 0.4)
+    covkind = cfg.get("cov", "dense")
+    if covkind == "diag":        # lazily represented covariances of the function distribution
+        from linear_operator.operators import DiagLinearOperator
+        cov_in = DiagLinearOperator(_pos(torch, (*db, n), gen, 0.2, 2.0))
+    elif covkind == "lazy":      # a dense matrix wrapped as a LinearOperator
+        from linear_operator import to_linear_operator
+        cov_in = to_linear_operator(_spd(torch, db, n, gen))
+    elif covkind == "root":      # non-square root: n x k with k != n (rank deficient when k < n)
+        from linear_operator.operators import RootLinearOperator
+        k = cfg.get("rootk", max(1, n - 1))
+        cov_in = RootLinearOperator(torch.randn(*db, n, k, generator=gen, dtype=torch.float64))
+    else:
+        cov_in = _spd(torch, db, n, gen)
+    Cm = cov_in.to_dense().clone() if covkind != "dense" else cov_in.clone()
     mean = torch.randn(*db, n, generator=gen, dtype=torch.float64)
     y = mean + torch.randn(*db, n, generator=gen, dtype=torch.float64)
-    dist = gpytorch.distributions.MultivariateNormal(mean, Cm)
+    fsamp = torch.randn(*db, n, generator=gen, dtype=torch.float64)
+    dist = gpytorch.distributions.MultivariateNormal(mean, cov_in)
     kw = {} if P["call"] is None else {"noise": P["call"]}
+    call_before = None if P["call"] is None else P["call"].clone()
     kind, var = cfg["kind"], variant_of(cfg)
     ob = single_out_batch(cfg, P)
     idxs = all_idx(ob)
@@ -403,32 +421,63 @@ def run_single(cfg):
     obs = {}
     with warnings.catch_warnings():
         warnings.simplefilter("ignore")
+        # the call-time kwargs go through every public entry point: __call__ (-> marginal), marginal itself,
+        # expected_log_prob, log_marginal, and the conditional p(y | f) (__call__ on a tensor -> forward)
         for name, fn in (("marginal", lambda: lik(dist, **kw)),
+                         ("marginal_direct", lambda: lik.marginal(dist, **kw)),
                          ("expected_log_prob", lambda: lik.expected_log_prob(y, dist, **kw)),
-                         ("log_marginal", lambda: lik.log_marginal(y, dist, **kw))):
-            if name == "expected_log_prob" and not case.nontrivial:
-                continue   # documented no-op: R = 0, so log N(y | f, R) is undefined (theorem needs r > 0)
+                         ("log_marginal", lambda: lik.log_marginal(y, dist, **kw)),
+                         ("conditional", lambda: lik(fsamp, **kw)),
+                         ("marginal_again", lambda: lik(dist, **kw))):
+            if name in ("expected_log_prob", "conditional") and not case.nontrivial:
+                continue
+            if name == "conditional" and cfg.get("zero_noise"):
+                continue   # p(y | f) with a zero variance is degenerate (torch rejects scale = 0)   # documented no-op: R = 0, so log N(y | f, R) is undefined (theorem needs r > 0)
             try:
                 obs[name] = fn()
             except Exception as e:  # the model accepts every generated single-output configuration
                 case.fail(f"raises:{kind}:{var}:{name}", f"{name} raised {type(e).__name__}: {str(e)[:200]}")
+        # nothing handed in may be modified in place
+        if not torch.equal(cov_in if covkind == "dense" else cov_in.to_dense(), Cm) or \
+                (call_before is not None and not torch.equal(P["call"], call_before)):
+            case.fail(f"mutates-input:{kind}:{var}", "a likelihood call changed the function distribution's covariance or "
+                                                     "the call-time noise tensor in place")
     case.l1 = [single_noise_line(cfg, P, oi) for oi in idxs]
 
     def after1(rep1):
         Rs = [C.parse_mat(r.split())[0] for r in rep1]
         lines2, todo = [], []
-        if "marginal" in obs:
-            out = obs["marginal"]
+        for entry in ("marginal", "marginal_direct", "marginal_again"):
+            if entry not in obs:
+                continue
+            out = obs[entry]
             cov = out.covariance_matrix.detach()
             full = bshape(tuple(cov.shape[:-2]), ob)
             if tuple(out.mean.shape[-1:]) != (n,) or not torch.equal(
                     out.mean.detach().expand(*bshape(tuple(out.mean.shape[:-1]), db), n),
                     mean.expand(*bshape(tuple(out.mean.shape[:-1]), db), n)):
-                case.fail(f"mean:{kind}:{var}", "marginal changed the mean")
+                case.fail(f"mean:{kind}:{var}", f"{entry} changed the mean")
             for oi in all_idx(full):
                 Ci = Cm[bidx(db, oi)]
                 lines2.append(f"marg {C.mat_tokens(Ci)} {_show(Rs[idxs.index(bidx(ob, oi))])}")
-                todo.append(("marg", oi, cov[bidx(tuple(cov.shape[:-2]), oi)].tolist(), Ci))
+                todo.append(("marg", (entry, oi), cov[bidx(tuple(cov.shape[:-2]), oi)].tolist(), Ci))
+        if "conditional" in obs:
+            o = obs["conditional"]
+            var_ = o.scale.detach() ** 2
+            try:
+                full = bshape(tuple(var_.shape[:-1]), ob)
+                if var_.shape[-1] != n or not torch.equal(o.loc.detach().expand(*bshape(tuple(o.loc.shape[:-1]), db), n),
+                                                          fsamp.expand(*bshape(tuple(o.loc.shape[:-1]), db), n)):
+                    raise ValueError("location / event size")
+                for oi in all_idx(full):
+                    R = Rs[idxs.index(bidx(ob, oi))]
+                    got = var_[bidx(tuple(var_.shape[:-1]), oi)].tolist()
+                    for e, g in enumerate(got):
+                        if not abs(g - float(R[e][e])) <= 1e-12 * (1 + abs(g)):
+                            case.fail(f"conditional:{kind}:{var}", f"likelihood(f{', noise=v' if kw else ''}) at {oi}: "
+                                      f"variance[{e}] = {g!r}, noise operator diagonal {float(R[e][e])!r}")
+            except ValueError as e:
+                case.fail(f"conditional:{kind}:{var}", f"conditional distribution has the wrong shape: {e}")
         # closed forms: all elements against the exact-rational closed form; a sample also through Lean Float
         for name, short in (("expected_log_prob", "elp"), ("log_marginal", "lm")):
             if name not in obs:
@@ -444,6 +493,8 @@ def run_single(cfg):
                 Ci, mi, yi = Cm[bidx(db, oi)], mean[bidx(db, oi)], y[bidx(db, oi)]
                 vi = val[bidx(tuple(val.shape[:-1]), oi)]
                 for e in range(n):
+                    if (short == "elp" and R[e][e] == 0) or C.frac(Ci[e, e].item()) + R[e][e] <= 0:
+                        continue      # r = 0: log N(y | f, 0) is not defined (hypothesis r > 0 of the theorem)
                     exp, mag = _closed(short, yi[e].item(), mi[e].item(), Ci[e, e].item(), R[e][e])
                     got = vi[e].item()
                     if not abs(got - exp) <= 1e-11 * (1 + mag):
@@ -463,7 +514,8 @@ def run_single(cfg):
                     exact, _ = C.parse_mat(rep.split())
                     scale = max(abs(float(v)) for row in exact for v in row)
                     _cmp_matrix(case, f"marginal:{kind}:{var}",
-                                f"likelihood(dist{', noise=v' if kw else ''}).covariance_matrix, batch element {where}",
+                                f"{ {'marginal': 'likelihood(dist', 'marginal_direct': 'likelihood.marginal(dist', 'marginal_again': 'second likelihood(dist'}[where[0]]}"
+                                f"{', noise=v' if kw else ''}).covariance_matrix, batch element {where[1]}",
                                 got, exact, scale)
                 else:
                     toks = rep.split()
@@ -526,10 +578,18 @@ def run_mt(cfg):
     n, t, db, lb, il = cfg["n"], cfg["t"], tuple(cfg["db"]), tuple(cfg["lb"]), cfg["il"]
     N = n * t
     lik, P, gen = build_mt(cfg)
-    Cm = _spd(torch, db, N, gen)
+    if cfg.get("cov") == "kron":     # Kronecker-structured function covariance (the SumKronecker path of `marginal`)
+        from linear_operator.operators import KroneckerProductLinearOperator
+        from linear_operator import to_linear_operator
+        An, Bt = _spd(torch, db, n, gen), _spd(torch, db, t, gen)
+        cov_in = KroneckerProductLinearOperator(*(map(to_linear_operator, (An, Bt) if il else (Bt, An))))
+        Cm = cov_in.to_dense().clone()
+    else:
+        cov_in = _spd(torch, db, N, gen)
+        Cm = cov_in.clone()
     mean = torch.randn(*db, n, t, generator=gen, dtype=torch.float64)
     y = mean + torch.randn(*db, n, t, generator=gen, dtype=torch.float64)
-    dist = gpytorch.distributions.MultitaskMultivariateNormal(mean, Cm, interleaved=il)
+    dist = gpytorch.distributions.MultitaskMultivariateNormal(mean, cov_in, interleaved=il)
     var = variant_of(cfg)
     ob = bshape(db, lb)
     idxs = all_idx(ob)
@@ -767,7 +827,7 @@ def _snap_mt(lik, cfg):
 def hist_targets(cfg):
     """noise parameters of the likelihood of `cfg`, with the ways each can be changed."""
     kind = cfg["kind"]
-    allm = ["setter", "raw", "load_state_dict", "initialize"]
+    allm = ["setter", "raw", "load_state_dict", "partial_state_dict", "initialize"]
     if kind == "gauss":
         return {"noise": allm}
     if kind == "fixed":
@@ -781,7 +841,7 @@ def hist_targets(cfg):
         if cfg["rank"] == 0:
             t["task_noises"] = allm
         else:
-            t["factor"] = ["raw", "load_state_dict", "initialize"]
+            t["factor"] = ["raw", "load_state_dict", "partial_state_dict", "initialize"]
     return t
 
 
@@ -821,6 +881,8 @@ def _mutate(torch, lik, cfg, target, method, gen):
         sd = lik.state_dict()
         sd[full] = raw_new
         lik.load_state_dict(sd)
+    elif method == "partial_state_dict":
+        lik.load_state_dict({full: raw_new}, strict=False)
     elif method == "initialize":
         owner.initialize(**{leaf: raw_new})
     else:
@@ -856,9 +918,9 @@ def run_hist(cfg):
             mean = torch.randn(*db, n, generator=gen, dtype=torch.float64)
             dist = gpytorch.distributions.MultivariateNormal(mean, Cm)
         P = _snap_mt(lik, cfg) if is_mt else _snap_single(lik, kind)
-        if not is_mt and kind != "gauss" and n != cfg["nstored"]:
-            P["call"] = _pos(torch, (*db, n), gen)      # other event size: FixedNoise needs call-time noise
-            kw["noise"] = P["call"]
+        if not is_mt and kind != "gauss" and n != cfg["nstored"] and not cfg.get("hist_nocall"):
+            P["call"] = _pos(torch, (*db, n), gen)      # other event size: call-time noise (else: documented skip of the
+            kw["noise"] = P["call"]                      # fixed noise, learned noise still added — `hist_nocall`)
         try:
             with warnings.catch_warnings():
                 warnings.simplefilter("ignore")
@@ -931,7 +993,7 @@ def gen_cfgs(ctx):
     def seed():
         return rng.getrandbits(30)
     lbs = [(), (2,), (3, 2), (1,)]
-    dbs = [(), (2,), (3, 2), (3, 1), (1, 2)]
+    dbs = [(), (2,), (3, 2), (3, 1), (1, 2), (2, 1, 2)]
     # --- single-output grid
     reps = 2 if quick else 40
     for _ in range(reps):
@@ -961,8 +1023,42 @@ def gen_cfgs(ctx):
                             continue
                         nstored = n + rng.randint(1, 3)
                         call = list(db) if rng.random() < 0.8 else None
-                    cfgs.append({"fam": "single", "kind": kind, "n": n, "lb": list(lb), "db": list(db),
-                                 "nb": list(nb), "nstored": nstored, "call": call, "seed": seed()})
+                    c = {"fam": "single", "kind": kind, "n": n, "lb": list(lb), "db": list(db),
+                         "nb": list(nb), "nstored": nstored, "call": call, "seed": seed()}
+                    r = rng.random()
+                    if r < 0.2:
+                        c["cov"] = "diag"
+                    elif r < 0.45:
+                        c.update(cov="root", rootk=rng.randint(1, n + 2))
+                    if call is not None and rng.random() < 0.25:
+                        c["zero_noise"] = True
+                    if call is None and nstored != n:
+                        c.pop("cov", None)     # documented no-op cell (shapeless ZeroLinearOperator): dense covariances only
+                        c.pop("rootk", None)
+                    cfgs.append(c)
+    # --- FixedNoise on a different number of points WITHOUT call-time noise (documented behaviour: the fixed noise is
+    #     skipped with a warning, the learned noise — if any — is still added), every run, every covariance representation
+    for _ in range(1 if quick else 10):
+        for kind, covs in (("fixed", ("dense", "lazy")), ("fixed+learned", ("dense", "lazy", "diag", "root"))):
+            for cov in covs:
+                for smaller in (False, True):
+                    n = rng.randint(2, 6)
+                    nstored = max(1, n - rng.randint(1, 2)) if smaller else n + rng.randint(1, 3)
+                    if nstored == n:
+                        nstored = n + 1
+                    lb = rng.choice(lbs) if kind == "fixed+learned" else ()
+                    db = rng.choice(dbs)
+                    try:
+                        bshape(lb, db)
+                    except ValueError:
+                        lb = ()
+                    c = {"fam": "single", "kind": kind, "n": n, "lb": list(lb), "db": list(db), "nb": [],
+                         "nstored": nstored, "call": None, "seed": seed()}
+                    if cov != "dense":
+                        c["cov"] = cov
+                    if cov == "root":
+                        c["rootk"] = rng.randint(1, n + 2)
+                    cfgs.append(c)
     # --- multitask grid
     for _ in range(3 if quick else 60):
         for (g, tk) in ((True, True), (False, True), (True, False)):
@@ -974,8 +1070,11 @@ def gen_cfgs(ctx):
                     rank = 0 if rsel == "zero" else (t if rsel == "full" else rng.randint(1, t))
                     lb, db = rng.choice([((), ()), ((), (2,)), ((2,), (2,)), ((2,), (3, 2)), ((3, 2), (3, 2)),
                                          ((), (3, 1)), ((1,), (2,)), ((2,), ()), ((2,), (3, 1))])
-                    cfgs.append({"fam": "mt", "n": n, "t": t, "rank": rank, "g": g, "tk": tk, "il": il,
-                                 "lb": list(lb), "db": list(db), "seed": seed()})
+                    c = {"fam": "mt", "n": n, "t": t, "rank": rank, "g": g, "tk": tk, "il": il,
+                         "lb": list(lb), "db": list(db), "seed": seed()}
+                    if rng.random() < 0.3:
+                        c["cov"] = "kron"
+                    cfgs.append(c)
     # --- LikelihoodList: noise passed as list / tuple / ONE stacked tensor; members with and without batch (also b == k)
     for _ in range(1 if quick else 12):
         for method in ("call", "forward"):
@@ -1026,6 +1125,8 @@ def gen_cfgs(ctx):
                             db = rng.choice([[], [2]])
                         c.update(fam="hist", mode=mode, n=n, n2=n2, lb=list(lb), db=list(db), nb=[], nstored=n, call=None,
                                  ops=[[target, method]], seed=seed())
+                        if base["kind"] in ("fixed", "fixed+learned") and rng.random() < 0.5:
+                            c["hist_nocall"] = True
                         if base["kind"] == "mt":
                             t = rng.randint(2, 3)
                             c.update(t=t, rank=min(base["rank"], t), il=rng.random() < 0.5)
@@ -1053,7 +1154,13 @@ def run_cases(ctx, cfgs, oracle):
     for c in cases:
         k = len(c.l1)
         if c.after1 is not None and not (c.fails and not c.l1):
-            c.after1(rep[p:p + k])
+            try:
+                c.after1(rep[p:p + k])
+            except Exception as e:   # materialising / reading the implementation's output failed: a verdict on this case
+                c.after2 = None
+                c.l2 = []
+                c.fail(f"raises:{_cell(c.cfg)}:output", f"evaluating the returned distribution raised {type(e).__name__}: "
+                                                        f"{str(e)[:200]}")
         p += k
     # stage 2
     lines = [l for c in cases for l in c.l2]
@@ -1062,7 +1169,11 @@ def run_cases(ctx, cfgs, oracle):
     for c in cases:
         k = len(c.l2)
         if c.after2 is not None:
-            c.after2(rep[p:p + k])
+            try:
+                c.after2(rep[p:p + k])
+            except Exception as e:
+                c.fail(f"raises:{_cell(c.cfg)}:output", f"comparing the returned distribution raised {type(e).__name__}: "
+                                                        f"{str(e)[:200]}")
         p += k
     return cases
 
